@@ -11,6 +11,12 @@ Lemma ok_op_lock : forall x m m' body, ok_op x m (OLock m' body) = (Nat.eqb m' m
 Proof. intros. reflexivity. Qed.
 Lemma ok_op_catch : forall x m body, ok_op x m (OCatch body) = ok_ops x m body.
 Proof. intros. reflexivity. Qed.
+Lemma ok_op_block : forall x m tb b body, ok_op x m (OBlock tb b body) = ok_ops x m body.
+Proof. intros. reflexivity. Qed.
+Lemma incs_op_block : forall x tb b body, incs_op x (OBlock tb b body) = incs_ops x body.
+Proof. intros. reflexivity. Qed.
+Lemma nofail_op_block : forall tb b body, nofail_op (OBlock tb b body) = nofail_ops body.
+Proof. intros. reflexivity. Qed.
 Lemma incs_op_lock : forall x m body, incs_op x (OLock m body) = incs_ops x body.
 Proof. intros. reflexivity. Qed.
 Lemma incs_op_catch : forall x body, incs_op x (OCatch body) = incs_ops x body.
@@ -219,6 +225,23 @@ Proof.
     rewrite ok_op_catch in HD.
     assert (G : okf (mkF KCatch body)) by exact HD.
     eapply cnt_keep; eauto; simpl; eauto. eapply stack_ok_push; eauto. nomid.
+  - (* block / tagbody *)
+    destruct (top_cases _ TOP _ _ H1) as [(O & HD & TL) | [(K & kk & E & _) | (K & kk & E & _)]]; try discriminate.
+    rewrite ok_op_block in HD.
+    assert (G : okf (mkF (KBlock tb b) body)) by exact HD.
+    eapply cnt_keep; eauto; simpl; eauto. eapply stack_ok_push; eauto. nomid.
+  - (* return-from / go *)
+    destruct (top_cases _ TOP _ _ H1) as [(O & HD & TL) | [(K & kk & E & _) | (K & kk & E & _)]]; try discriminate.
+    eapply cnt_keep; eauto; simpl; eauto. eapply stack_ok_adv; eauto. nomid.
+  - destruct (top_cases _ TOP _ _ H1) as [(O & HD & TL) | [(K & kk & E & _) | (K & kk & E & _)]]; try discriminate.
+    eapply cnt_keep; eauto; simpl; eauto. eapply stack_ok_adv; eauto. nomid.
+  - eapply cnt_keep; eauto; simpl; eauto. eapply stack_ok_rest; eauto.
+  - eapply cnt_keep; eauto; simpl; eauto. eapply stack_ok_rest; eauto.
+  - eapply cnt_keep; eauto; simpl; eauto. eapply stack_ok_rest; eauto.
+  - (* the marker is dropped: same stack, same accumulator *)
+    eapply cnt_keep; eauto; simpl; eauto.
+    + cbn [stk set_ext]. rewrite ST; auto.
+    + cbn [stk acc set_ext]. intros f0 rest0 E0 MD. eapply ci_acc; eauto.
 Qed.
 End Counter.
 
@@ -240,6 +263,7 @@ Record nf_inv (s : state) : Prop := {
   nf_frames : forall i r f, nth_error (rs s) i = Some r -> In f (stk r) -> nofail_ops (fops f) = true;
   nf_open : forall c ch, nth_error (chs s) c = Some ch -> closed ch = false;
   nf_unw : forall i r, nth_error (rs s) i = Some r -> unw r = false;
+  nf_ext : forall i r, nth_error (rs s) i = Some r -> ext r = None;
   nf_flag : unwound s = false
 }.
 
@@ -250,6 +274,7 @@ Proof.
     simpl. unfold nofail in NF. rewrite forallb_forall in NF. auto.
   - apply nth_error_In in H. apply in_map_iff in H. destruct H as (c0 & E & IN). subst. auto.
   - apply nth_error_In in H. apply in_map_iff in H. destruct H as (ops & E & IN). subst. auto.
+  - apply nth_error_In in H. apply in_map_iff in H. destruct H as (ops & E & IN). subst. auto.
 Qed.
 
 Lemma nofail_tail : forall o ops, nofail_ops (o :: ops) = true -> nofail_op o = true /\ nofail_ops ops = true.
@@ -258,27 +283,32 @@ Proof. unfold nofail_ops; simpl; intros. apply andb_true_iff in H. auto. Qed.
 (* under nf_inv only these things can happen to the moving routine *)
 Lemma nf_inv_step : forall s i k s', nf_inv s -> step s i k = Some s' -> nf_inv s'.
 Proof.
-  intros s i k s' [FR OP UN FL] H.
+  intros s i k s' [FR OP UN EXN FL] H.
+  assert (OTHE := step_others_ext _ _ _ _ H).
   assert (OTH : forall j rj', j <> i -> nth_error (rs s') j = Some rj' ->
                 exists rj, nth_error (rs s) j = Some rj /\ stk rj' = stk rj /\ (unw rj' = unw rj \/ unw rj' = true)).
   { intros j rj' NE N. destruct (step_others _ _ _ _ H j rj' NE N) as (rj & A & B & _ & _ & _ & C). eauto. }
   destruct (step_Step _ _ _ _ H) as (r & f & rest & R & P & ST & S).
   assert (U : forall r0, nth_error (upd (rs s) i r0) i = Some r0) by (intros; eapply nth_error_upd_same; eauto).
   assert (UF := UN _ _ R).
+  assert (EF := EXN _ _ R).
   assert (FF : forall g, In g (f :: rest) -> nofail_ops (fops g) = true) by (intros; eapply FR; eauto; rewrite ST; auto).
   (* generic: routine i gets stack st' (all frames nofail), unwinding flag false, channels stay open *)
-  assert (GEN : forall r' chs', nth_error (rs s') i = Some r' -> unw r' = false ->
+  assert (GEN : forall r' chs', nth_error (rs s') i = Some r' -> unw r' = false -> ext r' = None ->
             (forall g, In g (stk r') -> nofail_ops (fops g) = true) ->
             (forall j rj', j <> i -> nth_error (rs s') j = Some rj' -> exists rj, nth_error (rs s) j = Some rj /\ stk rj' = stk rj /\ unw rj' = unw rj) ->
             chs s' = chs' -> (forall c ch, nth_error chs' c = Some ch -> closed ch = false) -> unwound s' = false -> nf_inv s').
-  { intros r' chs' N' U' F' O' C' CL' W'. split; auto.
+  { intros r' chs' N' U' E' F' O' C' CL' W'. split; auto.
     - intros j rj g N IN. destruct (Nat.eq_dec j i) as [-> | NE].
       + rewrite N' in N. inversion N; subst; auto.
       + destruct (O' _ _ NE N) as (rj0 & A & B & _). rewrite B in IN. eauto.
     - rewrite C'. auto.
     - intros j rj N. destruct (Nat.eq_dec j i) as [-> | NE].
       + rewrite N' in N. inversion N; subst; auto.
-      + destruct (O' _ _ NE N) as (rj0 & A & _ & C). rewrite C. eauto. }
+      + destruct (O' _ _ NE N) as (rj0 & A & _ & C). rewrite C. eauto.
+    - intros j rj N. destruct (Nat.eq_dec j i) as [-> | NE].
+      + rewrite N' in N. inversion N; subst; auto.
+      + destruct (OTHE _ _ NE N) as (rj0 & A & C). rewrite C. eauto. }
   assert (CHU : forall c ch0 ch', nth_error (chs s) c = Some ch0 -> closed ch' = false ->
                 forall c1 ch1, nth_error (upd (chs s) c ch') c1 = Some ch1 -> closed ch1 = false).
   { intros c ch0 ch' N C c1 ch1 N1. rewrite nth_error_upd in N1. destruct (Nat.eqb_spec c c1); eauto.
@@ -300,6 +330,7 @@ Proof.
     try (intros j rj' NE N; rewrite nth_error_upd_other in N by auto; eauto; fail).
   - intros g [<- | IN]; eauto. simpl. assert (A := HD _ _ H1). rewrite nofail_op_lock in A. auto.
   - intros g [<- | IN]; eauto. simpl. assert (A := HD _ _ H1). rewrite nofail_op_catch in A. auto.
+  - intros g [<- | IN]; eauto. simpl. assert (A := HD _ _ H1). rewrite nofail_op_block in A. auto.
 Qed.
 
 Theorem nf_inv_reach : forall p s, nofail p = true -> reach p s -> nf_inv s.
@@ -331,9 +362,10 @@ Qed.
 
 Lemma tot_inv_step : forall p x s i k s', nf_inv s -> tot_inv p x s -> step s i k = Some s' -> tot_inv p x s'.
 Proof.
-  intros p x s i k s' [FR OP UN FL] [T L] H.
+  intros p x s i k s' [FR OP UN EXN FL] [T L] H.
   destruct (step_Step _ _ _ _ H) as (r & f & rest & R & P & ST & S).
   assert (UF := UN _ _ R).
+  assert (EF := EXN _ _ R).
   assert (FF : nofail_ops (fops f) = true) by (eapply FR; eauto; rewrite ST; simpl; auto).
   assert (HD : forall o ops', fops f = o :: ops' -> nofail_op o = true).
   { intros o ops' E. rewrite E in FF. apply nofail_tail in FF. tauto. }
@@ -360,6 +392,9 @@ Proof.
     fold (stack_incs x rest). lia.
   - split; auto. apply KEEP; auto. cbn [stk set_stk adv stack_incs fold_right fops]. rewrite OLD, H1.
     change (incs_ops x (OCatch body :: ops')) with (incs_op x (OCatch body) + incs_ops x ops'). rewrite incs_op_catch.
+    fold (stack_incs x rest). lia.
+  - split; auto. apply KEEP; auto. cbn [stk set_stk adv stack_incs fold_right fops]. rewrite OLD, H1.
+    change (incs_ops x (OBlock tb b body :: ops')) with (incs_op x (OBlock tb b body) + incs_ops x ops'). rewrite incs_op_block.
     fold (stack_incs x rest). lia.
 Qed.
 
